@@ -58,7 +58,6 @@ TRUSTED_EXTRA = [
 PRIORITY = [
     # trusted deserialization
     "unnormalised:optional-immutable-set", "unnormalised:anyof-enum",
-    "none-attribute-hash:set-of-structures",
     "dropped:undeclared-keys", "unnormalised:boolean-string", "defaults-not-applied",
     "unnormalised:enum-name", "unnormalised:inline-dict", "unnormalised:float-int",
     "mapper:base-chain", "mapper:cascade", "mapper:fallback",
@@ -137,14 +136,16 @@ def judge_trusted(case, impl, model):
                     and not model.get("baseChain") and "regularMapped" in model
                     and not _uses_unmapped_names(cls, case["doc"], case.get("mapperSpec") or {})
                     and _extras_quiet(cls, case["doc"], case.get("mapperSpec") or {}, impl.get("opts_actual") or {}))
-    if mapped_scope and not _has_set_of_struct(cls):
+    if mapped_scope:
         m_reg = _loose_err(SD.res_diff("regular deserialize (with mappers)", model["regularMapped"], reg,
                                        errs=("TypeError", "ValueError", "InvalidStructureErr")))
         if m_reg:
             msgs.append(m_reg)
     m_tru = None
     eligible = model.get("verdict") in ("flat", "nested")
-    set_of_struct = _has_set_of_struct(cls)   # CPython dedups by hash (= str(instance)), the model by ==  (C11)
+    # (before /repo c4803f1 CPython deduplicated Set[Structure] elements by a hash of str(instance) while the model
+    #  deduplicates by ==; since then equal structures hash alike and sets of structures are corresponded like the rest)
+    set_of_struct = False
     if set_of_struct:
         m_reg = None
         msgs[:] = [m for m in msgs if not m.startswith("regular deserialize")]
